@@ -209,6 +209,7 @@ def gen_db_stress(thorough=False):
                                   (3, "input-registers", 125, 3, 3), (1, "discrete-inputs", 2000, 2, 4)):
         out.append({"id": 9000 + pt, "kind": "db_stress", "writers": w, "readers": r, "millis": ms, "block": block, "pt": pt,
                     "tag": f"c19-stress-{block}-{name}"})
+    out.append({"id": 9100, "kind": "db_add_race", "block": 20000 if thorough else 3000, "tag": "c19-two-transactions-add-the-same-index"})
     return out
 
 
